@@ -133,8 +133,16 @@ void Schedules() {
   static_assert(std::is_same_v<decltype(yaclib::Schedule<E>(Fn<int>{})), Task<int, E>>);
   static_assert(std::is_same_v<decltype(yaclib::Schedule<E>(Exec(), Fn<Future<Pinned, E>>{})), Task<Pinned, E>>);
 }
+// a user error type: one copyable and one move-only value type (the error type is only passed through)
+template <typename E>
+void SchedulesLite() {
+  ScheduleRets<E, int>();
+  ScheduleRets<E, Pinned>();
+  LazyContracts<void, E>();
+  LazyContracts<Pinned, E>();
+}
 template void Schedules<StopError>();
-template void Schedules<UserError>();
+template void SchedulesLite<UserError>();
 
 void ScheduleDefaults() {
   Sink(yaclib::Schedule([] {
@@ -167,8 +175,8 @@ void ContinuationsStar() {
   Star<ThenExec, Task<V, E>, V, E, U>();
   Star<ThenOn, Task<V, E>, V, E, U>();
 }
-template void ContinuationsFull<void, StopError, int>();
 template void ContinuationsFull<int, StopError, void>();
+template void ContinuationsStar<void, StopError, int>();
 template void ContinuationsStar<std::string, StopError, std::string>();
 template void ContinuationsStar<MoveOnly, UserError, void>();
 template void ContinuationsStar<Pinned, UserError, MoveOnly>();
